@@ -526,6 +526,21 @@ func init() {
 		spawnNative(fr, wrapper)
 		return nil
 	}
+	intrinsics["(*sync.Pool).Put"] = func(fr *frame, args []value) value { return nil }
+	intrinsics["(*sync.Pool).Get"] = func(fr *frame, args []value) value {
+		// a legal behaviour of the real pool: it is always empty
+		pool := (*args[0].(*value)).(structure)
+		newFn := pool[len(pool)-1]
+		switch f := newFn.(type) {
+		case *ssa.Function:
+			if f == nil {
+				return iface{}
+			}
+		case nil:
+			return iface{}
+		}
+		return call(fr.i, fr, token.NoPos, newFn, nil)
+	}
 	intrinsics["(*sync.Once).Do"] = func(fr *frame, args []value) value {
 		so := fr.p.syncOf(args[0])
 		if so.done {
